@@ -5,6 +5,7 @@ from concurrent.futures import ThreadPoolExecutor
 VERIF = os.path.dirname(os.path.dirname(os.path.abspath(__file__)))
 args = [a for a in sys.argv[1:] if not a.startswith('--')]
 own = '--own' in sys.argv
+ONLY = [a.split('=', 1)[1] for a in sys.argv[1:] if a.startswith('--only=')]     # run just these checks on every variant
 built = sorted(os.path.basename(f)[:-3].upper() for f in glob.glob(f'{VERIF}/vstatic/rules/c[0-9][0-9].py'))
 def one(d):
     name = os.path.basename(d); pid = name.split('-')[0]
@@ -15,7 +16,7 @@ def one(d):
         if p.returncode != 0:
             return name, {'error': 'patch failed'}
         res = {}
-        for pr in ([pid] if own else built):
+        for pr in (ONLY or ([pid] if own else built)):
             q = subprocess.run(['/venv/bin/python', '-m', 'vstatic', pr, '--repo', tmp, '--evidence-dir', f'{tmp}/ev'], cwd=VERIF, capture_output=True, text=True)
             if q.returncode != 0:
                 res[pr] = (q.returncode, [l.strip() for l in q.stdout.splitlines() if l.startswith(('  rule=', 'ANALYSIS-ERROR'))][:4])
